@@ -232,6 +232,43 @@ structure GroupSpec {β : Type} (Good : α → Prop) (abs : α → β) (add : β
   good    : ∀ p, acc.p = some p → Good p
   abs_eq  : acc.p.map abs = absSum add ((successes outs 0 k).map (fun x => abs x.2))
 
+/-! ## Per-source outcome of URL / file / plug-in sources (the scheme / trust table)
+
+`grabProfile` → `fetch` → `fetchURL` → the HTTP transport (internal/transport): whether ONE source
+can be fetched is decided by that source alone — its scheme, whether the server's certificate
+chains to a root the client trusts (system roots, or the `-tls_ca` pool when given), and whether
+what is served / stored / returned is a valid profile.  In particular the `https+insecure`
+scheme switches certificate verification off for THAT request only.  Nothing here mentions other
+sources or time: the outcome function handed to `concurrentGrab` is a function of the index, which
+is exactly what the order-independence theorems quantify over. -/
+
+inductive Scheme where
+  | plugin         -- the Fetcher plug-in answers itself
+  | file
+  | http
+  | https
+  | httpsInsecure
+  deriving Repr, DecidableEq
+
+structure SrcDesc where
+  scheme      : Scheme
+  certTrusted : Bool   -- server certificate chains to a trusted root (only matters for https)
+  bodyOk      : Bool   -- a valid profile is served / stored / returned (status 200, parses, CheckValid)
+  deriving Repr, DecidableEq
+
+/-- the trust table -/
+def SrcDesc.fetchable (d : SrcDesc) : Bool :=
+  d.bodyOk && (match d.scheme with
+    | .https => d.certTrusted
+    | _ => true)
+
+/-- outcome function of a described source list: source `i` yields the one-element "profile"
+`[tag + i]` iff its own description is fetchable -/
+def outsOfDescs (tag : Nat) (ds : List SrcDesc) (i : Nat) : Res Unit (List Nat) :=
+  match ds[i]? with
+  | some d => if d.fetchable then .ok [tag + i] else .fail ()
+  | none => .fail ()
+
 /-- What the model needs of the chunking facts regenerated from the source (`Gen/FetchConsts.lean`),
 as far as they were recognised (`none` = not recognised, then nothing is claimed): the chunk size
 is positive; consecutive chunks start exactly one chunk length apart (no gap, no overlap) and a
